@@ -1,7 +1,8 @@
 """C10 — all query methods agree with each other in every state.
 
-Theorems: lean/FsProofs/C10.lean (query consistency of Ref in every well-formed state;
-Info conversions in FsModel.Info).  Oracle on the real code (needs no model): after the
+Theorems: lean/FsProofs/C10.lean (query consistency of Ref in every well-formed state) and
+lean/FsProofs/InfoLaws.lean (Permissions / fs.time / Info accessors over FsModel.Info, tied to
+the real classes by props/_infomodel.py).  Oracle on the real code (needs no model): after the
 steps of random histories every query is evaluated on every directory and file of every
 filesystem kind and the equalities of the property are checked directly.
 """
@@ -14,6 +15,9 @@ import json
 import vlib
 import fsharness as H
 from props import _stateful as S
+from props import _infomodel
+
+EXTRA_PROOF_MODULES = ("FsProofs.InfoLaws",)
 
 NS_SETS = [(), ("basic",), ("details",), ("basic", "details"), ("details", "access"), ("stat",), ("details", "stat", "lstat", "link", "access")]
 STANDARD_NS = ("basic", "details", "access", "link")
@@ -276,6 +280,7 @@ def run(rep, tier, seed, deep=False):
                 finally:
                     b.close()
         info_accessor_grid(rep, rng, 200 if quick else 5000)
+        _infomodel.check_info_model(rep, vlib.Driver(), vlib.rng_for(seed, "c10-info"), tier)
         rep.sample({"backend": "mem", "laws": ["listdir_eq_scandir_names", "page_is_slice", "scandir_info_eq_getinfo", "getsize_eq_len_readbytes_eq_details_size"]})
     finally:
         H.cleanup_scratch()
